@@ -1501,7 +1501,10 @@ def main():
             mod, lib = mods[case["lib"]], data["libs"][case["lib"]]
             canon = Canon(datadir)
             try:
-                fn = {"c12": run_c12, "c13": run_c13, "witness": run_witness, "proc": run_proc, "files": run_files}[case["kind"]]
+                if case["kind"] == "c13m":     # values with several roots loaded as runtime objects (xv.props.c13x_multiroot)
+                    from .c13x_multiroot_worker import run_c13m as fn
+                else:
+                    fn = {"c12": run_c12, "c13": run_c13, "witness": run_witness, "proc": run_proc, "files": run_files}[case["kind"]]
                 rec = fn(mod, lib, case, root, canon, datadir)
                 rec["error"] = None
             except Exception as e:
